@@ -551,7 +551,11 @@ func (x *Exec) cutLoop(st *State, ls *LoopSpec, id, label string, nodes []ast.No
 		nv := x.vc.fresh(o.Name(), old.T.Sort)
 		h.vars[o] = Value{T: nv, Ty: old.Ty}
 	}
-	x.havocKinds(h, eff, st)
+	if eff.All {
+		x.vc.havocAll(h, eff.Preserved)
+	} else {
+		x.havocKinds(h, eff, st)
+	}
 	// implicit frame invariant: objects that existed on function entry and are
 	// outside the declared assigns set are unchanged (asserted on entry and
 	// after each iteration, assumed after the havoc)
@@ -560,7 +564,7 @@ func (x *Exec) cutLoop(st *State, ls *LoopSpec, id, label string, nodes []ast.No
 		refs     []Term
 	}
 	var frames []frameItem
-	if x.ct != nil && x.ct.HasAssigns {
+	if x.ct != nil && x.ct.HasAssigns && !eff.All {
 		ms := x.modset(x.entryEnv(st), x.ct)
 		for _, k := range eff.kindsW() {
 			if k.Tag == "global" {
@@ -680,6 +684,20 @@ func (x *Exec) cutLoop(st *State, ls *LoopSpec, id, label string, nodes []ast.No
 				g := tAnd(x.vc.compare(token.LSS, dec1, dec0, ii), x.vc.compare(token.GEQ, dec0, intLit(x.vc.mode, ii, bigZero()), ii))
 				x.obligeNamed(f.next, fmt.Sprintf("decreases[loop%s]", id), "decreases", g, pos, ls.Decreases.Text)
 			}
+		}
+	}
+	// exit assertions: checked on every state leaving the loop
+	for ei, ex := range ls.Exits {
+		for si, es := range exits {
+			if es == nil {
+				continue
+			}
+			g, facts := mkEnv(es).evalWithFacts(ex.Expr)
+			probe := es.clone()
+			for _, f := range facts {
+				probe.assume(f)
+			}
+			x.obligeNamed(probe, fmt.Sprintf("exit[loop%s.%d@%d]", id, ei, si), "exit", g, pos, ex.Text)
 		}
 	}
 	out.next = x.vc.mergeStates(exits)
